@@ -9,6 +9,8 @@ import PyamgV.Proofs.Kaczmarz
 import PyamgV.Model.C02Cycle
 import PyamgV.Proofs.ExtRelaxRefine
 import PyamgV.Proofs.ExtComplexGsEnergy
+import PyamgV.Proofs.ExtSmoothersCycle
+import PyamgV.Proofs.ExtSmoothersRefine
 import Mathlib.Algebra.Module.Prod
 
 /-! # C02 — SPD problems: no multigrid cycle increases the energy norm of the error
@@ -222,5 +224,78 @@ restate complex_gs_sweep_nonexpansive := PyamgV.cgsSweep_cnonexp
 restate complex_gs_array_kernel_nonexpansive := PyamgV.crat_gaussSeidel_array_nonexp
 /-- non-vacuity: all hypotheses hold for `[[2, i], [−i, 2]]` -/
 restate complex_example_gs_nonexpansive := PyamgV.ExC.example_cgsSweep_cnonexp
+
+/-! ## polynomial / Chebyshev, Richardson, (block) Jacobi, NE/NR smoothers (extension E22, Proofs/ExtSmoothers*.lean)
+
+`polyFn A c0 cs` is one iteration of `relaxation.polynomial(A, x, b, coefficients = c0 :: cs)` (what `setup_chebyshev` and
+`setup_richardson` install), `polyOp A c0 cs = p(A)`; the executable array model `ExtSm.polynomial` (driver op
+`ext_poly`, compared exactly with the real function) is proved to be `polyFn` iterated. -/
+
+/-- a linear iteration `x + Q(b − A x)` is non-expansive for a form `E` **iff** `‖Q A v‖²_E ≤ 2 E(Q A v, v)` for all `v` -/
+restate linear_iteration_nonexpansive_iff := PyamgV.linIter_nonexp_iff
+/-- `T` symmetric for `E`, `0 ≤ E(T v, v) ≤ 2 E(v, v)` ⟹ `E(T v, T v) ≤ 2 E(T v, v)`; no spectral theory, any ordered field -/
+restate symmetric_bounded_quadratic := PyamgV.sym_bounded_quadratic
+restate symmetric_linear_iteration_nonexpansive := PyamgV.sym_linIter_energy_nonexp
+/-- `p(A)` is `Σ_k coefficients[k] A^(deg−k)`, commutes with `A`, is symmetric when `A` is, acts as `p(λ)` on eigenvectors -/
+restate polynomial_operator_is_polynomial := PyamgV.polyOp_eq_sum
+restate polynomial_operator_commutes := PyamgV.polyOp_comm
+restate polynomial_operator_symmetric := PyamgV.polyOp_adj
+restate polynomial_operator_on_eigenvector := PyamgV.polyOp_eigen
+/-- the error of one `polynomial` iteration is `(I − p(A)A)` times the old error (the `x = 0` shortcut included) -/
+restate polynomial_error_propagation := PyamgV.polynomial_error
+/-- `I − p(A)A` is energy non-expansive iff `‖p(A)A v‖²_A ≤ 2 a(p(A)A v, v)` -/
+restate polynomial_nonexpansive_iff := PyamgV.polynomial_nonexp_iff
+/-- **polynomial / Chebyshev smoother**: `A` symmetric PSD, `0 ≤ a(p(A)A v, v) ≤ 2 a(v, v)` ⟹ non-expansive in the energy norm -/
+restate polynomial_nonexpansive := PyamgV.polynomial_nonexp
+restate polynomial_iterations_nonexpansive := PyamgV.polynomial_iter_nonexp
+/-- the hypothesis in the form the check verifies per level: orthogonal eigenbasis, `|1 − λ p(λ)| ≤ 1` on the spectrum -/
+restate polynomial_nonexpansive_of_spectrum := PyamgV.polynomial_nonexp_of_spectrum
+/-- Richardson is the degree-0 polynomial smoother -/
+restate richardson_is_polynomial := PyamgV.richardson_is_polynomial
+restate richardson_as_polynomial_nonexpansive := PyamgV.richardson_polynomial_nonexp
+/-- weighted / block Jacobi under `ω A ≤ 2 D` (`Dinv` a right inverse of the (block) diagonal `D`) -/
+restate jacobi_nonexpansive_of_bound := PyamgV.jacobi_nonexp_of_bound
+/-- the formula of the `block_jacobi` kernel, `(1−ω) x + ω Dinv (b − N x)` with `A = D + N`, is `x + ω Dinv (b − A x)` -/
+restate block_jacobi_is_operator := PyamgV.blockJacobi_eq_operator
+restate block_jacobi_nonexpansive := PyamgV.blockJacobi_nonexp
+/-- NE (Kaczmarz) sweep, any row list, `0 ≤ ω ≤ 2`: non-expansive in the **2-norm of the error** (not the energy norm:
+these smoothers feed `cycle_nonexpansive` only for the Euclidean form) -/
+restate kaczmarz_sweep_nonexpansive := PyamgV.ne_sweep_nonexp
+/-- NR sweep, any column list, `0 ≤ ω ≤ 2`: the **2-norm of the residual** does not increase, any `b`; the kernel's
+incrementally updated residual is `b − A x` -/
+restate nr_sweep_residual_nonexpansive := PyamgV.nr_sweep_residual_nonexp
+restate nr_sweep_nonexpansive := PyamgV.nr_sweep_nonexp
+restate nr_loop_keeps_residual := PyamgV.nrLoop_eq
+restate jacobi_ne_nonexpansive := PyamgV.jacobi_ne_nonexp
+/-- every member of the family (none / polynomial / Richardson / Jacobi / block Jacobi under their damping conditions /
+anything known non-expansive; closed under composition and iteration) satisfies the `NonExp` hypothesis of the cycle theorem -/
+restate smoother_family_nonexpansive := PyamgV.EnergySmoother.nonexp
+restate wfgs_implies_wfg := PyamgV.WFGS.toWFG
+/-- **cycle level of C02 with these smoothers**: Galerkin hierarchy, smoothers in the family ⟹ every V/W/F(k) cycle is
+non-expansive in the energy norm -/
+restate cycle_nonexpansive_of_smoother_family := PyamgV.cycle_nonexp_of_smoother_family
+/-- the executable array model of `relaxation.polynomial` read as functions is `polyFn` iterated -/
+restate polynomial_model_step_is_polyFn := PyamgV.polyStep_refines
+restate polynomial_model_is_polyFn := PyamgV.polynomial_refines
+/-- **C02 for the executable model of `polynomial`** (Chebyshev, Richardson), any `iterations` -/
+restate polynomial_model_nonexpansive := PyamgV.polynomial_array_nonexp
+restate polynomial_model_fixed_point := PyamgV.polynomial_array_fixed_point
+restate polynomial_model_rejects_empty := PyamgV.polynomial_empty
+/-- non-vacuity on `ℚ²`, `A = [[2,−1],[−1,2]]`: `p(t) = 1 − t/5` meets the quadratic-form and the spectral hypotheses;
+Jacobi(2/3); a symmetric Kaczmarz sweep with `ω = 3/2`; an NR sweep; a two-level `WFGS` hierarchy with a polynomial
+pre-smoother and two Jacobi post-smoothing steps -/
+restate example_polynomial_nonexpansive := PyamgV.ExSm.example_polynomial_nonexp
+restate example_polynomial_spectrum := PyamgV.ExSm.example_polynomial_spectrum
+restate example_jacobi_nonexpansive := PyamgV.ExSm.example_jacobi_nonexp
+restate example_kaczmarz_nonexpansive := PyamgV.ExSm.example_ne_sweep_nonexp
+restate example_nr_nonexpansive := PyamgV.ExSm.example_nr_sweep_nonexp
+restate example_smoother_family_hierarchy := PyamgV.ExSm.example_wfgs
+/-- the model evaluated by the kernel: `A = [[2,−1],[−1,2]]`, `p(t) = 1 − t/5`, `x = 0`, `b = (1, 0)`: one iteration
+gives `p(A) b = (3/5, 1/5)`; the exact solution `(2/3, 1/3)` of `A x = b` is returned unchanged (two iterations) -/
+example :
+    let A : K.Csr Rat := ⟨2, #[0, 2, 4], #[0, 1, 0, 1], #[2, -1, -1, 2]⟩
+    ExtSm.polynomial A [-1/5, 1] 1 #[1, 0] #[0, 0] = some #[3/5, 1/5] ∧
+    ExtSm.polynomial A [-1/5, 1] 2 #[1, 0] #[2/3, 1/3] = some #[2/3, 1/3] ∧
+    ExtSm.polynomial A [] 1 #[1, 0] #[0, 0] = none := by decide +kernel
 
 end PyamgV.Props.C02
